@@ -24,6 +24,11 @@ def gen(rng, k, dll=None, big=False):
             size = 60 * rng.randint(1, 4) + FD_LAST[(k // 4) % len(FD_LAST)]
     else:
         size = rng.choice([9, 13, 14, 15, 21, 22, rng.randint(9, 250)]) if not big else rng.choice([1784, 1785, rng.randint(250, 1785)])
+    if k % 50 == 10 and not forced:
+        # the FD size field has three bytes: a message of 65536 bytes or more, the stack receiving it
+        dll, fd, unit = 'j1939-22', True, 60
+        size = 65536 + rng.randint(0, 200)
+        role = 'stack-responder'
     directed_grant = (not fd) and (not big) and k % 4 == 1
     if directed_grant:
         # the stack as responder of a message whose size is a multiple of 7 (and of one that is not), with a window that
